@@ -79,7 +79,12 @@ func (vm *vm) run() error {
 		return vm.prog.constants[readUvarint()]
 	}
 
+	var overflow bool
 	push := func(v value) {
+		if vm.tos == stackSize {
+			overflow = true
+			return
+		}
 		vm.stack[vm.tos] = v
 		vm.tos++
 		vm.stats.tosMax = max(vm.stats.tosMax, vm.tos)
@@ -248,6 +253,9 @@ func (vm *vm) run() error {
 
 		case opDEFBLOCK:
 			// ( -- )
+			if vm.blockTos == blockStackSize {
+				return vm.runtimeError("blocks nested too deep")
+			}
 			blk := Block{
 				Type:   readConst().(string),
 				Name:   readConst().(string),
@@ -355,6 +363,10 @@ func (vm *vm) run() error {
 
 		case opNOP:
 			// ( -- )
+		}
+
+		if overflow {
+			return vm.runtimeError("stack overflow")
 		}
 	}
 }
